@@ -375,6 +375,22 @@ def run(ctx):
             else:
                 chk.bad(R5, f.qualname, norm(n)[:100], 'a read inside a streaming loop has no constant bound on its size: peak memory grows with the object size', where=f'{f.module.relpath}:{n.lineno}')
     chk.require(nloops >= 8, f'expected at least 8 chunked reads in streaming loops, found {nloops}')
+    # streaming inflate: decompressobj.decompress(data, max_length) -- without max_length one 512 KiB compressed chunk of a
+    # well-compressible object inflates to hundreds of MiB at once
+    ndec = 0
+    for f in prog.all_functions():
+        if isinstance(f.node, ast.Lambda):
+            continue
+        for n in walk_local(f.node):
+            if isinstance(n, ast.Call) and isinstance(n.func, ast.Attribute) and n.func.attr == 'decompress' and 'decompressor' in norm(n.func.value).lower():
+                ndec += 1
+                ml = n.args[1] if len(n.args) > 1 else next((k.value for k in n.keywords if k.arg == 'max_length'), None)
+                if ml is not None and not (isinstance(ml, ast.Constant) and ml.value in (0, None)):
+                    chk.ok(R5, f.qualname, norm(n)[:80], detail=f'inflate bounded by max_length=`{norm(ml)}`')
+                else:
+                    chk.bad(R5, f.qualname, norm(n)[:100], 'the streaming decompresser inflates a whole compressed chunk without max_length: memory grows with the compression ratio / object size',
+                            where=f'{f.module.relpath}:{n.lineno}')
+    chk.require(ndec >= 1, 'streaming decompress call not found')
     # import_objects: whole-object reads are guarded by the memory budget
     imp = prog.fn('container:Container.import_objects')
     for n in walk_local(imp.node):
